@@ -146,15 +146,15 @@ def scenarios(tier, seed):
             inp = {f'b{i}': 'bool' for i, val in enumerate(values) if val == 'B'}
             S.append(Scenario(f'{dtype}/{j}', BOOLSTR_SRC, inp, consts={'values': values, 'typed': [True] + [bool((j + i) % 2) for i in range(len(values) - 1)], 'dtype': dtype, 'placement': j % 4},
                               preamble=PRE, what=f'{dtype} node assigned {values}', samples=2))
-    rejected = [('typed modification with another data type', 'a float = {x} m\\na int = {k}'), ('typed modification str over int', 'a int = {k}\\na str = "q"'),
-                ('unit of another dimension', 'a float = {x} m\\na = {y} s'), ('unit of another dimension (typed)', 'a float = {x} J\\na float = {y} kg'),
-                ('constant node modified', 'a float = {x} m\\n  !constant\\na = {y} m'), ('constant bool modified', 'b bool = true\\n  !constant\\nb = false'),
-                ('constant node modified two levels deep', 'g\\n  a int = {k}\\n    !constant\\ng.a = {k}'),
-                ('declared node left without value', 'a float m'), ('declared node among others left without value', 'b int = {k}\\na float m\\nc str = "x"'),
-                ('nested declaration left without value', 'g\\n  a float m\\nb int = {k}'),
+    rejected = [('typed modification with another data type', 'a float = {x} m\na int = {k}'), ('typed modification str over int', 'a int = {k}\na str = "q"'),
+                ('unit of another dimension', 'a float = {x} m\na = {y} s'), ('unit of another dimension (typed)', 'a float = {x} J\na float = {y} kg'),
+                ('constant node modified', 'a float = {x} m\n  !constant\na = {y} m'), ('constant bool modified', 'b bool = true\n  !constant\nb = false'),
+                ('constant node modified two levels deep', 'g\n  a int = {k}\n    !constant\ng.a = {k}'),
+                ('declared node left without value', 'a float m'), ('declared node among others left without value', 'b int = {k}\na float m\nc str = "x"'),
+                ('nested declaration left without value', 'g\n  a float m\nb int = {k}'),
                 ('modification of an undefined node', 'a = {x} m'), ('unit on a boolean', 'b bool = true m'), ('bool assigned a number', 'b bool = {k}')]
-    accepted = [('declaration then value', 'a float m\\na = {x}'), ('declaration then value in another prefix', 'a float m\\na = {x} cm'),
-                ('constant never modified', 'a float = {x} m\\n  !constant\\nb float = {y} m'), ('typed modification of the same type', 'a float = {x} m\\na float = {y} m')]
+    accepted = [('declaration then value', 'a float m\na = {x}'), ('declaration then value in another prefix', 'a float m\na = {x} cm'),
+                ('constant never modified', 'a float = {x} m\n  !constant\nb float = {y} m'), ('typed modification of the same type', 'a float = {x} m\na float = {y} m')]
     S.append(Scenario('reject', REJECT_SRC, {'x': 'real', 'y': 'real', 'k': 'int'}, consts={'cases': rejected, 'accepted': accepted}, preamble=PRE,
                       what='inputs that must make parsing fail / succeed', samples=2))
     S.append(Scenario('canary/value', NUM_SRC.replace('vals[last] * (factor(ul) / factor(first_unit))', 'vals[0] * (factor(ul) / factor(first_unit))'), {'x0': 'real', 'x1': 'real'},
